@@ -137,7 +137,10 @@ def check(env, rep, tier):
                         e["after_unrecorded"] = True
                     # (the sink model below marks the failing outcome of this write as not yet recorded)
                 elif call.path.endswith("core::ops::try_trait::Try>::branch"):
-                    s.ghost.pop(("inj", "unrecorded"), None)
+                    # `write(..)?` hands the failure to the caller as it is; `write(..).ok()?` has already thrown it away
+                    at0 = call.arg_tys[0] if call.arg_tys else None
+                    if at0 is not None and at0[0] == "adt" and at0[1] == "core::result::Result":
+                        s.ghost.pop(("inj", "unrecorded"), None)
                 else:
                     # nothing else may get mutable access to the slot or use the sink
                     for a in call.args:
